@@ -434,7 +434,7 @@ def run_check(prop, tier, scn_name=None):
                 data.update({'kind': 'run', 'property': prop, 'scenario': scn.name, 'verif_seed': verif_seed,
                              'violation': {'oracle': first['oracle'], 'sig': first['sig'], 'detail': first['detail']}})
             name = '%s-%s-%08x.json' % (prop, first['oracle'].replace('.', '_'), derive_seed(k) & 0xffffffff)
-            path = os.path.join(VERIF, 'replays', name)
+            path = os.path.join(os.environ.get('LSIM_REPLAY_DIR') or os.path.join(VERIF, 'replays'), name)
             os.makedirs(os.path.dirname(path), exist_ok=True)
             with open(path, 'w') as f:
                 json.dump(data, f, indent=1, sort_keys=True)
@@ -522,6 +522,8 @@ def write_evidence(prop, tier, verif_seed, scn, agg, hists, nontrivial, states, 
         'wall_s': round(wall, 2),
         'violations': int(nviol),
     }
+    if os.environ.get('LSIM_NO_EVIDENCE') == '1':
+        return      # self-tests against scratch copies must not overwrite the evidence of the real tree
     os.makedirs(os.path.join(VERIF, 'evidence'), exist_ok=True)
     with open(os.path.join(VERIF, 'evidence', '%s.json' % prop), 'w') as f:
         json.dump(ev, f, indent=1, sort_keys=True, default=str)
